@@ -99,6 +99,8 @@ class C17(Harness):
             inp["shared_estimator"] = inp["labels"] == 1  # (tied to the label-type choice to keep the path count)
             # members given their column by NAME, and a frame at predict time whose columns come in another order
             inp["by_name"] = inp["labels"] == 2 and not inp["dup_names"]
+            # ... or by a callable evaluated on the frame given to fit (here: "the column standing at position k")
+            inp["by_callable"] = inp["labels"] == 0 and not inp["dup_names"]
         p = [[fresh_reals(ctx, "p%d_%d_" % (e, i), nk) for i in range(ni)] for e in range(ne)]
         if k != "tsf-regressor":
             for e in range(ne):
@@ -211,7 +213,9 @@ class C17(Harness):
                     Xn.columns = ["dim_0", "dim_0"]
                     Xfit.columns = ["dim_0", "dim_0"]
                 colspec = (lambda e: [["c0", "c1"][e % 2]]) if inp.get("by_name") else (lambda e: [e % 2])
-                if inp.get("by_name"):
+                if inp.get("by_callable"):
+                    colspec = lambda e: (lambda X_, k_=e % 2: [list(X_.columns)[k_]])  # noqa: E731
+                if inp.get("by_name") or inp.get("by_callable"):
                     Xn = Xn[["c1", "c0"]]
                 if inp.get("shared_estimator"):  # one estimator object listed for every member: each member still is its own clone
                     one = Clf(e=0)
